@@ -3,7 +3,9 @@
    Proofs/LimitBidProofs.v.  English auctions: the five coded variants (generation 1 surplus and
    debt, generation 2 surplus / generic / inverted debt) share one model; [ops] is ANY finite
    history of bids (any bidder account >= 0, any amount and denom, any time) and block hooks (any
-   time).  Failed messages / hooks leave the state unchanged (baseapp, ApplyFuncIfNoError). *)
+   time), the latter with the app's emergency shutdown off (Tick) or on (TickEsm: a generation-1
+   auction is wound up at once, the generation-2 english hook does not read the ESM status).
+   Failed messages / hooks leave the state unchanged (baseapp, ApplyFuncIfNoError). *)
 From Comdex Require Import Lib.Base Lib.DecArith Lib.DecFacts Lib.FLedger.
 From Comdex Require Model.English Model.LimitBid Proofs.EnglishProofs Proofs.LimitBidProofs.
 
@@ -81,29 +83,164 @@ Proof.
   intros v bd ld lot b0 now fac d bs l0 ops Hd Hb Hv s Hst.
   destruct (run_inv l0 ops _ (inv_init v bd ld lot b0 now fac d bs l0 Hd Hb) Hv) as [_ [HO|HC]]; fold s in HO || fold s in HC.
   - destruct HO as ([H|H] & _); lia.
-  - destruct HC as (_ & w & amt & rest & Hw & Hbs & _ & _ & Hl & Hsrc). exists w, amt, rest. auto.
+  - destruct HC as [HC|(H & _)]; [|lia].
+    destruct HC as (_ & w & amt & rest & Hw & Hbs & _ & _ & Hl & Hsrc). exists w, amt, rest. auto.
 Qed.
 Print Assumptions c11_winner_only.
 
-(* while the auction is open nobody but the standing bidder is out of pocket, and the standing
-   bidder is out of exactly the standing payment *)
+(* while the auction is open (neither closed, 2, nor wound up by the emergency shutdown, 3) nobody
+   but the standing bidder is out of pocket, and the standing bidder is out of exactly the standing
+   payment *)
 Theorem c11_open_others_whole : forall v bd ld lot b0 now fac d bs l0 ops,
   bd <> ld -> 0 <= b0 -> Forall valid_op ops ->
   let s := run (init v bd ld lot b0 now fac d bs, l0) ops in
-  status (fst s) <> 2 ->
+  status (fst s) <> 2 -> status (fst s) <> 3 ->
   forall acct dn, 0 <= acct ->
     snd s acct dn = l0 acct dn
       - (match bidder (fst s) with
          | Some w => if (acct =? w) && (dn =? bid_denom (fst s)) then buy (fst s) else 0
          | None => 0 end).
 Proof.
-  intros v bd ld lot b0 now fac d bs l0 ops Hd Hb Hv s Hst acct dn Ha.
+  intros v bd ld lot b0 now fac d bs l0 ops Hd Hb Hv s Hst Hst3 acct dn Ha.
   destruct (run_inv l0 ops _ (inv_init v bd ld lot b0 now fac d bs l0 Hd Hb) Hv) as [_ [HO|HC]]; fold s in HO || fold s in HC.
   - destruct HO as (_ & _ & _ & _ & Hl). rewrite Hl. unfold MOD.
     destruct (Z.eqb_spec acct (-1)); [lia|]. cbn [andb]. lia.
-  - destruct HC as (Hc & _). contradiction.
+  - destruct HC as [(Hc & _)|(Hc & _)]; contradiction.
 Qed.
 Print Assumptions c11_open_others_whole.
+
+(* ---- the emergency shutdown (generation 1: auction.BeginBlocker with the app's ESM status on) ---- *)
+
+(* the end under the emergency shutdown: NO bidder receives the lot and NO ONE has lost anything:
+   every bidder account - the standing bidder included - is exactly where it was when the auction
+   started, in every denom; the auction custody keeps nothing of the bid denom; the lot of a surplus
+   auction is back in the collector and on its net-fee record (NF), a debt auction mints nothing *)
+Theorem c11_esm_no_winner_all_whole : forall v bd ld lot b0 now fac d bs l0 ops,
+  bd <> ld -> 0 <= b0 -> Forall valid_op ops ->
+  let s := run (init v bd ld lot b0 now fac d bs, l0) ops in
+  status (fst s) = 3 ->
+  is_v1 (var (fst s)) = true /\
+  (forall acct dn, 0 <= acct -> snd s acct dn = l0 acct dn) /\
+  snd s MOD (bid_denom (fst s)) = l0 MOD (bid_denom (fst s)) /\
+  (forall dn, snd s MOD dn = l0 MOD dn - lot_back (fst s) dn) /\
+  (forall dn, snd s COLL dn = l0 COLL dn + lot_back (fst s) dn) /\
+  (forall dn, snd s NF dn = l0 NF dn + lot_back (fst s) dn).
+Proof.
+  intros v bd ld lot b0 now fac d bs l0 ops Hd Hb Hv s Hst.
+  pose proof (run_inv l0 ops _ (inv_init v bd ld lot b0 now fac d bs l0 Hd Hb) Hv) as HI. fold s in HI.
+  pose proof (inv_custody l0 s HI) as Hc.
+  destruct (inv_esm_end l0 s HI Hst) as (_ & Hv1 & _ & Hl & HM & HC & HN).
+  repeat (split; [assumption|]). split; [|auto].
+  rewrite Z.sub_move_r in Hc. rewrite Hc. unfold held, ended. rewrite Hst. cbn. lia.
+Qed.
+Print Assumptions c11_esm_no_winner_all_whole.
+
+(* the block hook under the emergency shutdown, in ANY reachable state in which a generation-1
+   auction is still there: it is wound up in that step (no restart, whatever the time), and the
+   standing bidder, if there is one, has the whole standing payment back in the same step and is
+   back at what it had when the auction started *)
+Theorem c11_esm_refund : forall v bd ld lot b0 now0 fac d bs l0 ops now tm s',
+  bd <> ld -> 0 <= b0 -> Forall valid_op ops ->
+  let s := run (init v bd ld lot b0 now0 fac d bs, l0) ops in
+  is_v1 (var (fst s)) = true -> ended (fst s) = false ->
+  step s (TickEsm now tm) = Ok s' ->
+  status (fst s') = 3 /\ bidder (fst s') = bidder (fst s) /\
+  forall p, bidder (fst s) = Some p ->
+    snd s' p (bid_denom (fst s)) = snd s p (bid_denom (fst s)) + buy (fst s) /\
+    snd s' p (bid_denom (fst s)) = l0 p (bid_denom (fst s)).
+Proof.
+  intros v bd ld lot b0 now0 fac d bs l0 ops now tm [a' l'] Hd Hb Hv s Hv1 En Hs.
+  destruct (run_inv l0 ops _ (inv_init v bd ld lot b0 now0 fac d bs l0 Hd Hb) Hv) as [Hdd HI].
+  fold s in Hdd, HI. destruct s as [a l]. cbn [step fst snd] in *.
+  destruct (tick_esm_facts l0 a l now tm a' l' Hdd HI En Hv1 Hs) as (H3 & _ & Hbd & Hp).
+  split; [exact H3|]. split; [exact Hbd|]. intros p E. destruct (Hp p E) as (_ & H1 & H2). auto.
+Qed.
+Print Assumptions c11_esm_refund.
+
+(* ... and that hook cannot fail: in ANY reachable state with an open generation-1 auction whose
+   module account was not overdrawn in the bid denom when the auction started and (surplus) holds the
+   lot, the hook under the emergency shutdown succeeds - so with c11_esm_refund the standing bidder
+   IS refunded in the first block after the shutdown *)
+Theorem c11_esm_hook_succeeds : forall v bd ld lot b0 now0 fac d bs l0 ops now tm,
+  bd <> ld -> 0 <= b0 -> Forall valid_op ops ->
+  let s := run (init v bd ld lot b0 now0 fac d bs, l0) ops in
+  is_v1 (var (fst s)) = true -> ended (fst s) = false ->
+  0 <= l0 MOD (bid_denom (fst s)) ->
+  (var (fst s) = V1S -> 0 <= sell (fst s) <= l0 MOD (lot_denom (fst s))) ->
+  exists s', step s (TickEsm now tm) = Ok s' /\ status (fst s') = 3.
+Proof.
+  intros v bd ld lot b0 now0 fac d bs l0 ops now tm Hd Hb Hv s Hv1 En Hm Hlot.
+  destruct (run_inv l0 ops _ (inv_init v bd ld lot b0 now0 fac d bs l0 Hd Hb) Hv) as [Hdd HI].
+  fold s in Hdd, HI. destruct s as [a l]. cbn [step fst snd] in *.
+  destruct (tick_esm_progress l0 a l now tm Hdd (inv3_not_ended l0 a l HI En) Hv1 Hm Hlot) as [[a' l'] T].
+  exists (a', l'). split; [exact T|].
+  exact (proj1 (tick_esm_facts l0 a l now tm a' l' Hdd HI En Hv1 T)).
+Qed.
+Print Assumptions c11_esm_hook_succeeds.
+
+(* the executable predicates that the runner evaluates on the implementation's observations after an
+   emergency-shutdown close are consequences of the invariant *)
+Theorem c11_esm_predicates : forall v bd ld lot b0 now fac d bs l0 ops,
+  bd <> ld -> 0 <= b0 -> Forall valid_op ops ->
+  let s := run (init v bd ld lot b0 now fac d bs, l0) ops in
+  status (fst s) = 3 ->
+  (forall acct, 0 <= acct ->
+     holds_C11_esm (fst s) acct (l0 acct (bid_denom (fst s))) (l0 acct (lot_denom (fst s)))
+                   (snd s acct (bid_denom (fst s))) (snd s acct (lot_denom (fst s))) = true) /\
+  holds_C11_esm_lot (fst s) (l0 MOD (lot_denom (fst s))) (l0 COLL (lot_denom (fst s))) (l0 NF (lot_denom (fst s)))
+                    (snd s MOD (lot_denom (fst s))) (snd s COLL (lot_denom (fst s))) (snd s NF (lot_denom (fst s))) = true /\
+  holds_C11_custody (fst s) (l0 MOD (bid_denom (fst s))) (snd s MOD (bid_denom (fst s))) = true /\
+  held (fst s) = 0.
+Proof.
+  intros v bd ld lot b0 now fac d bs l0 ops Hd Hb Hv s Hst.
+  pose proof (run_inv l0 ops _ (inv_init v bd ld lot b0 now fac d bs l0 Hd Hb) Hv) as HI. fold s in HI.
+  split; [exact (inv_holds_esm l0 s HI Hst)|]. split; [exact (inv_holds_esm_lot l0 s HI Hst)|].
+  split; [exact (inv_holds_custody l0 s HI)|]. unfold held, ended. rewrite Hst. reflexivity.
+Qed.
+Print Assumptions c11_esm_predicates.
+
+(* non-vacuity: a generation-1 surplus auction (lot 1000 of denom 1 in the module account), bidder 0
+   is outbid by bidder 1 (standing 220000), then the emergency shutdown: the hook - long before any
+   deadline - winds the auction up: nobody has the lot, bidder 1 has its 220000 back, the module holds
+   nothing of the bid denom, the lot is back in the collector (5000 -> 6000) and on the net-fee record
+   (1000 -> 2000); later hooks and bids change nothing *)
+Definition esm_l0 : ledger := fun a d =>
+  if (a =? COLL) then 5000 else if (a =? NF) then (if d =? 1 then 1000 else 0)
+  else if (a =? MOD) then (if d =? 1 then 1000 else 0) else if (0 <=? a) && (d =? 0) then 1000000 else 0.
+Definition esm_ops : list op :=
+  [Bid 0 0 200000 10 0 0; Bid 1 0 220000 12 0 0; TickEsm 20 true; Bid 2 0 300000 21 0 0; Tick 3700 true; TickEsm 3800 true].
+Example c11_esm_nonvacuous :
+  Forall valid_op esm_ops /\
+  let s1 := run (init V1S 0 1 1000 0 0 100000000000000000 3600 300, esm_l0) (firstn 2 esm_ops) in
+  is_v1 (var (fst s1)) = true /\ ended (fst s1) = false /\ bidder (fst s1) = Some 1 /\ snd s1 1 0 = 780000 /\ snd s1 MOD 0 = 220000 /\
+  (exists s', step s1 (TickEsm 20 true) = Ok s') /\
+  let s := run (init V1S 0 1 1000 0 0 100000000000000000 3600 300, esm_l0) esm_ops in
+  status (fst s) = 3 /\ bidder (fst s) = Some 1 /\ lot_back (fst s) 1 = 1000 /\
+  snd s 1 0 = 1000000 /\ snd s 1 1 = 0 /\ snd s 0 0 = 1000000 /\ snd s 2 0 = 1000000 /\ snd s MOD 0 = 0 /\
+  snd s MOD 1 = 0 /\ snd s COLL 1 = 6000 /\ snd s NF 1 = 2000 /\ active_biddings (fst s) = 2.
+Proof.
+  split; [repeat constructor; cbn; lia|]. vm_compute. repeat split. eexists. reflexivity.
+Qed.
+
+(* ... and a generation-1 debt auction (bidders pay 1000 of denom 1 for a falling lot of denom 0): the
+   standing bidder 1 gets its 1000 back, nothing is minted, collector and net fees are where they
+   were; without any bid the hook just removes the auction *)
+(* the hypotheses of c11_esm_hook_succeeds are met by the state before the shutdown above *)
+Example c11_esm_hook_succeeds_nonvacuous :
+  let s1 := run (init V1S 0 1 1000 0 0 100000000000000000 3600 300, esm_l0) (firstn 2 esm_ops) in
+  is_v1 (var (fst s1)) = true /\ ended (fst s1) = false /\ 0 <= esm_l0 MOD (bid_denom (fst s1)) /\
+  (var (fst s1) = V1S -> 0 <= sell (fst s1) <= esm_l0 MOD (lot_denom (fst s1))) /\ sell (fst s1) = 1000.
+Proof. vm_compute. repeat split; intros; discriminate. Qed.
+
+Example c11_esm_debt_nonvacuous :
+  let l0 : ledger := fun a d => if (0 <=? a) && (d =? 1) then 50000 else 0 in
+  let s := run (init V1D 1 0 777 1000 0 100000000000000000 3600 300, l0)
+               [Bid 0 0 700 10 1 1000; Bid 1 0 630 12 1 1000; TickEsm 13 true] in
+  status (fst s) = 3 /\ bidder (fst s) = Some 1 /\ snd s 1 1 = 50000 /\ snd s 0 1 = 50000 /\ snd s 1 0 = 0 /\
+  snd s MOD 1 = 0 /\ snd s COLL 1 = 0 /\ snd s NF 1 = 0 /\
+  let s0 := run (init V1D 1 0 777 1000 0 100000000000000000 3600 300, l0) [TickEsm 1 true] in
+  status (fst s0) = 3 /\ bidder (fst s0) = None /\ snd s0 MOD 1 = 0.
+Proof. vm_compute. repeat split. Qed.
 
 (* non-vacuity: a generation-2 surplus auction with three bidders: barely improving bid accepted,
    equal bid rejected, close after the end time; bidder 1 wins, bidder 0 and 2 are whole; the lot
